@@ -118,7 +118,7 @@ def frame_guard(ctx):
     g = ctx.graph(b)
     S, MAX = frame_samples(ctx, b)
     BAD_LOW, GOOD, BAD_HIGH = (-7, 0), (1, 2, MAX - 1, MAX), (MAX + 1,)
-    ctx.floor(R, "comparisons of the frame length with constants / self.max_packet_length", len(S.cmp), 2, b.loc)
+    ctx.floor(R, "tests of the frame length against constants / self.max_packet_length", len(S.cmp) + 2 * len(S.decided_switches), 2, b.loc)
     # everything that consumes or computes with the length after the select!
     deps = []
     for bb, kind, name, info in awaits(ctx, b):
@@ -195,10 +195,27 @@ def frame_samples(ctx, b):
     from ..sample import Samples
     MAX = FRAME_MAX
     atom = frame_atom
+    def switch_eval(e, ls, L):
+        # `(lo..=hi).contains(&length)` / `(lo..hi).contains(&length)`
+        x = flow.strip(e)
+        if x[0] == "call" and flow.short(x[1]).endswith("::contains") and len(x[3]) == 2:
+            rng, item = flow.strip(x[3][0]), x[3][1]
+            v = frame_value(item, L)
+            if rng[0] == "call" and flow.short(rng[1]).endswith(("RangeInclusive::<Idx>::new", "RangeInclusive::new")) and len(rng[3]) == 2:
+                lo, hi = frame_value(rng[3][0], L), frame_value(rng[3][1], L)
+                if None not in (v, lo, hi):
+                    return ("true",) if lo <= v <= hi else ("false",)
+            if rng[0] == "agg" and rng[1].split("::")[-1] in ("Range", "RangeInclusive"):
+                f = dict(rng[2])
+                lo, hi = frame_value(f.get("start", ("unknown", "")), L), frame_value(f.get("end", ("unknown", "")), L)
+                if None not in (v, lo, hi):
+                    inc = rng[1].split("::")[-1] == "RangeInclusive"
+                    return ("true",) if (lo <= v <= hi if inc else lo <= v < hi) else ("false",)
+        return None
     key = "_frame_samples_" + b.key
     S = getattr(ctx, key, None)
     if S is None:
-        S = Samples(ctx, b, atom, [-7, 0, 1, 2, MAX - 1, MAX, MAX + 1])
+        S = Samples(ctx, b, atom, [-7, 0, 1, 2, MAX - 1, MAX, MAX + 1], switch_eval=switch_eval)
         setattr(ctx, key, S)
     return S, MAX
 
